@@ -79,7 +79,8 @@ def mc_cfg(steps=5, durs="2", fund=3, risk=1, nums="2, 3", inv=INV):
 NEED = ("lock", "add", "sfdelegate", "sfundelegate", "sfunbond", "sfundelunbond", "sfundelunbond:split", "locksfdelegate",
         "topup:delegated", "clcreate", "cladd", "cladd:refused", "begin", "begin:split", "endblock", "swap", "block", "epoch", "fund", "history:cl",
         "sfdelegate:refused", "sfundelegate:refused", "sfunbond:refused", "begin:refused:delegated", "begin:refused:undelegating",
-        "unlock:refused:undelegating", "extend:refused:held")
+        "unlock:refused:undelegating", "extend:refused:held",
+        "history:crash-script", "refresh:locks-worth-zero", "refresh:restaked-from-zero")
 
 
 def big(b):
